@@ -13,6 +13,8 @@ const UN_NAMES: [&str; 18] =
     ["lo", "log", "log2", "log10", "sin", "sinh", "s", "f", "fa", "neg", "αβ", "_u", "S", "s1n", "f1", "σ", "exp", "Σ"];
 const CONST_NAMES: [&str; 10] = ["PI", "E", "e", "τ", "TAU", "T", "c0", "pi_", "π", "Ω"];
 const ALPHA_BINS: [&str; 4] = ["max", "o", "mod", "atan2"];
+/// (binary operator, longer unary operator / constant starting with its name, is constant)
+const LONGER_THAN_BIN: [(&str, &str, bool); 4] = [("max", "maxi", false), ("o", "oo", true), ("mod", "modulo", false), ("atan2", "atan2d", false)];
 const EXT: [&str; 22] =
     ["a", "Z", "0", "9", "_", "α", "Ω", "Δ", "Σ", "x1", "10", "2x", "h", "_a", "β", "ω", "Α", "e", "E", "x", "4", "π"];
 
@@ -31,6 +33,12 @@ fn lex_table(t: &mut Tape) -> Vec<OpSpec> {
     for b in ALPHA_BINS {
         if t.chance(15) {
             table.push(OpSpec::bin(b, 0, false));
+            // a unary operator or constant whose name continues the binary operator's name
+            for (short, long, constant) in LONGER_THAN_BIN {
+                if short == b && t.chance(60) {
+                    table.push(if constant { OpSpec::constant(long) } else { OpSpec::un(long) });
+                }
+            }
         }
     }
     // symbolic prefix families
@@ -241,7 +249,7 @@ fn names(tape: &[u32], st: &mut Stats) -> CaseResult {
         }
         _ => {
             // longest operator name wins
-            let cands: Vec<(&str, &str)> = vec![("log", "log2"), ("log", "log10"), ("lo", "log"), ("sin", "sinh"), ("s", "sin"), ("f", "fa"), ("f", "f1"), ("<", "<="), ("<", "<<"), ("&", "&&"), ("=", "=="), ("e", "exp"), ("E", "exp")];
+            let cands: Vec<(&str, &str)> = vec![("log", "log2"), ("log", "log10"), ("lo", "log"), ("sin", "sinh"), ("s", "sin"), ("f", "fa"), ("f", "f1"), ("<", "<="), ("<", "<<"), ("&", "&&"), ("=", "=="), ("e", "exp"), ("E", "exp"), ("max", "maxi"), ("o", "oo"), ("mod", "modulo"), ("atan2", "atan2d")];
             let present: Vec<&(&str, &str)> =
                 cands.iter().filter(|(a, b)| table.iter().any(|o| o.name == *a) && table.iter().any(|o| o.name == *b)).collect();
             if present.is_empty() {
